@@ -715,9 +715,20 @@ func UnfoldBooleanAction(unfoldOpts BooleanUnfold) RewriteAction {
 			return []ast.Option{option}
 		}
 
+		// the boolean argument goes away; the other ones (the key of a map, …) are still used by the path
+		var remainingArgs []ast.Argument
+		for _, arg := range option.Args {
+			if value := option.Assignments[0].Value.Argument; value != nil && value.Name == arg.Name {
+				continue
+			}
+
+			remainingArgs = append(remainingArgs, arg.DeepCopy())
+		}
+
 		newOpts := []ast.Option{
 			{
 				Name:     unfoldOpts.OptionTrue,
+				Args:     remainingArgs,
 				Comments: append([]string(nil), option.Comments...),
 				Assignments: []ast.Assignment{
 					ast.ConstantAssignment(option.Assignments[0].Path, true),
@@ -727,6 +738,7 @@ func UnfoldBooleanAction(unfoldOpts BooleanUnfold) RewriteAction {
 
 			{
 				Name:     unfoldOpts.OptionFalse,
+				Args:     append([]ast.Argument(nil), remainingArgs...),
 				Comments: append([]string(nil), option.Comments...),
 				Assignments: []ast.Assignment{
 					ast.ConstantAssignment(option.Assignments[0].Path, false),
